@@ -5,6 +5,9 @@ cd "$(dirname "$0")"
 export CARGO_NET_OFFLINE=true
 export CARGO_TARGET_DIR="$(pwd)/target"
 (cd harness && cargo build --release --offline)
-if [ -d fuzz ] && [ -f fuzz/Cargo.toml ]; then
-  (cd fuzz && cargo +nightly fuzz build -O 2>&1 | tail -3) || echo "fuzz build failed (thorough tier fuzz campaigns will be inconclusive)" >&2
+# fuzz targets (thorough tier only): ASan build for termid/group, plain build for decode/facts
+if [ -f fuzz/Cargo.toml ]; then
+  unset CARGO_TARGET_DIR
+  (cd harness && cargo +nightly fuzz build -O --fuzz-dir "$OLDPWD/fuzz" --target-dir "$OLDPWD/fuzz/target" 2>&1 | tail -1) || echo "fuzz (asan) build failed: thorough fuzz campaigns will be inconclusive" >&2
+  (cd harness && cargo +nightly fuzz build -O -s none --fuzz-dir "$OLDPWD/fuzz" --target-dir "$OLDPWD/fuzz/target-nosan" 2>&1 | tail -1) || echo "fuzz (plain) build failed: thorough fuzz campaigns will be inconclusive" >&2
 fi
